@@ -247,9 +247,14 @@ def build():
         ok = cb.tag == "fn" and cb.kind == "bound" and cb.name == "_run_next_step"
         return VBool(z3.And(z3.BoolVal(ok), I.eq(e.args["when"], t)))
     C.helpers["scheduled_next_step_at"] = sched_at
+
+    def start_callback_ran(I, cb):
+        evs = [e for e in events_named(I, "callback") if z3.is_true(z3.simplify(I.eq(e.args["fn"], cb)))]
+        return VBool(len(evs) == 1)
+    C.helpers["start_callback_ran"] = start_callback_ran
     C.trace_helpers = {"n_play", "n_stop_cb", "n_sched", "n_unsched", "n_posted", "n_posts", "plays_at",
                        "played_are_tracked", "each_player_once", "stopped_all_players", "scheduled_next_step_at",
-                       "n_callbacks"}
+                       "n_callbacks", "start_callback_ran"}
 
     C.fn("RunningShow._post_events", inline=True, no_inv=True)
     C.fn("RunningShow._remove_delay_handler",
@@ -271,6 +276,10 @@ def build():
                    "implies(not old(self._stopped), stopped_all_players())"),
                   ("C3: the pending step is cancelled", "ghost.n_live == 0 and self._delay_handler is None or "
                    "old(self._stopped)"),
+                  ("C5: a show stopped before its (synchronised / paused) start still runs its start callback - it "
+                   "stops the show this one was to replace - exactly once, whether or not a start timer is pending",
+                   "implies(not old(self._stopped) and old(self.start_callback) is not None, "
+                   "start_callback_ran(old(self.start_callback)) and self.start_callback is None)"),
                   ("C4: the stopped events are posted once",
                    "implies(not old(self._stopped) and self.show_config.events_when_stopped is not None, "
                    "n_posted('events_when_stopped_evt') == 1)")],
@@ -339,14 +348,37 @@ def build():
          requires=[("a target step is a step number", "show_step is None or show_step >= 0")],
          ensures=[STAY], modifies=MODS, raises={})
     C.fn("RunningShow.step_back", params=dict(steps=Int), ensures=[STAY], modifies=MODS, raises={})
-    C.fn("RunningShow._start_play",
+    GRID = (250, 1000, 333)
+
+    def on_grid(I, t, sync):
+        """t (seconds) is an exact multiple of sync (ms) - for the sync intervals of the bounded precondition"""
+        tt, sy = I.num(t)[1], I.force(sync).t
+        if I.num(t)[0] == "int":
+            tt = z3.ToReal(tt)
+        cases = []
+        for v in GRID:
+            q = tt * 1000 / v
+            cases.append(z3.And(sy == v, q == z3.ToReal(z3.ToInt(q))))
+        return VBool(z3.Or(cases))
+    C.helpers["on_grid"] = on_grid
+    def sync_choice(I, name):
+        return VInt(((0,) + GRID)[I.ctx.fork(len(GRID) + 1)])
+    CFG_SYNC = ObjS("ShowConfig", **dict(CFG.fields, sync_ms=Init(sync_choice)))
+    C.fn("RunningShow._start_play", params=dict(self=ObjS("RunningShow", show_config=CFG_SYNC)),
          requires=[("called once from the constructor: nothing is scheduled yet",
                     "ghost.n_live == 0 and self._delay_handler is None"),
+                   ("BOUNDED: the sync interval is 0 (none) or one of %s ms (the grid arithmetic is nonlinear in a "
+                    "symbolic interval)" % (GRID,), "self.show_config.sync_ms in (0,) + %r" % (GRID,)),
                    ("sync interval is not negative", "self.show_config.sync_ms >= 0"),
                    ("a loaded show has at least one step", "len(self.show_steps) >= 1 and self.show_config.speed > 0"),
                    ("nobody holds state yet", "len(self._players) == 0 and not self._stopped")],
          ensures=[("a synchronised show starts on the next multiple of sync_ms and only there",
                    "implies(self.show_config.sync_ms != 0, n_sched() == 1 and n_play() == 0)"),
+                  ("Y1: the planned start of a synchronised show lies EXACTLY on the sync grid (shows with the same "
+                   "sync_ms requested at different instants start together), at the first grid point after the request",
+                   "implies(self.show_config.sync_ms != 0, on_grid(self.next_step_time, self.show_config.sync_ms) and "
+                   "old(self.next_step_time) < self.next_step_time and self.next_step_time <= "
+                   "old(self.next_step_time) + self.show_config.sync_ms / 1000.0)"),
                   ("start step: k > 0 starts at step k (index k-1), k < 0 counts from the end, 0 is the first step",
                    "implies(self.show_config.sync_ms != 0, self.next_step_index == (self.start_step - 1 if "
                    "self.start_step > 0 else (self.start_step % self._total_steps if self.start_step < 0 else 0)))")],
@@ -367,4 +399,92 @@ def build_extra():
     c = C09.build()
     c.pid = "C17l"
     c.only_verify = ["Light.remove_from_stack_by_key", "Light._remove_fade_out", "Light._remove_from_stack_by_key"]
-    return [c]
+    return [c, show_player_set()]
+
+
+SP = "mpf/config_players/show_player.py"
+
+
+def show_player_set():
+    """a show started from a show step / event runs at  configured priority + caller priority  EVERY time: the player
+    must not write the sum back into the (shared, re-used) configuration"""
+    C = ContractSet("C17p", "show player leaves its configuration untouched")
+    C.strings = False
+    C.cls("DeviceConfigPlayer", fields={})
+    C.cls("Clock", fields={})
+    C.ext("Clock.get_time", model=lambda I, env, a, k: VReal(z3.Real(I.fresh_name("now"))), trusted_reason="clock")
+    C.cls("Cond", fields={})
+    C.ext("Cond.evaluate", model=lambda I, env, a, k: VBool(z3.Bool(I.fresh_name("cond"))),
+          trusted_reason="condition template (C16)")
+    C.cls("ShowKey", fields=dict(name=Str, condition=Opt(ObjS("Cond"))))
+    C.cls("ShowPlayer", file=SP, bases=["DeviceConfigPlayer"],
+          fields=dict(machine=ObjS("MachineController", clock=ObjS("Clock"))))
+    NSH = common.bound(1, 2)
+
+    def settings(I, name):
+        ents = []
+        for i in range(I.ctx.fork(NSH + 1)):
+            key = I.fresh(ObjS("ShowKey"), "%s.show%d" % (name, i))
+            prio = VInt(z3.Int("%s[show%d][priority]" % (name, i)))
+            if I.ctx.fork(2) == 0:
+                val = I.new_dict((("priority", prio), ("hold", NONE)))
+            else:
+                val = I.new_dict((("hold", NONE),))       # a hand-built config without a priority
+            ents.append((key, val))
+        I.__dict__["c17_settings"] = ents
+        return I.new_dict(tuple(ents))
+
+    def update_show(I, env, a, k):
+        ss = I.force(a[1])
+        c = I.container(ss.ref)
+        emit(I, "update_show", show=a[0], settings_ref=ss.ref, priority=c.get("priority"))
+        return NONE
+    C.ext("ShowPlayer._update_show", model=update_show,
+          trusted_reason="ShowPlayer._update_show: dispatches the action (play/stop/...) with these settings")
+
+    def config_untouched(I):
+        """every settings dict handed in still has exactly its entries (priority included)"""
+        cs = []
+        for key, val in I.__dict__.get("c17_settings", []):
+            old = dict(I.container(val.ref, heap=I.old_heap).entries)
+            new = dict(I.container(val.ref).entries)
+            if sorted(old) != sorted(new):
+                return VBool(False)
+            cs += [I.eq(old[k_], new[k_]) for k_ in old]
+        return VBool(z3.And(cs + [z3.BoolVal(True)]))
+    C.helpers["config_untouched"] = config_untouched
+
+    def priorities_added(I, priority):
+        """each show that is dispatched gets  configured priority (0 if none) + caller priority"""
+        ents = I.__dict__.get("c17_settings", [])
+        by_name = {id(I.force(k).ref): v for k, v in ents}
+        cs = []
+        for e in events_named(I, "update_show"):
+            # find the settings this dispatch belongs to through the show name
+            src = None
+            for k, v in ents:
+                if z3.is_true(z3.simplify(I.eq(I.read_field(I.force(k).ref, "name"), e.args["show"]))):
+                    src = v
+            if src is None:
+                return VBool(False)
+            old = dict(I.container(src.ref, heap=I.old_heap).entries)
+            base = I.force(old["priority"]).t if "priority" in old else z3.IntVal(0)
+            got = e.args["priority"]
+            p = I.force(priority).t
+            if got is None:
+                cs.append(z3.And(p == 0, z3.BoolVal("priority" not in old)))
+            else:
+                cs.append(I.force(got).t == base + p)
+        return VBool(z3.And(cs + [z3.BoolVal(True)]))
+    C.helpers["priorities_added"] = priorities_added
+    C.trace_helpers = {"priorities_added"}
+    C.fn("ShowPlayer.play", params=dict(settings=Init(settings), context=Str, calling_context=Str, priority=Int,
+                                        kwargs=Init(lambda I, name: I.new_dict(()))),
+         loops={0: LoopSpec(invariant=[], unroll=True)},
+         ensures=[("X1: the configuration handed to the player (the show step / show_player entry that is re-used on "
+                   "every loop and every event) is NOT modified", "config_untouched()"),
+                  ("X2: every show is dispatched with configured priority + caller priority",
+                   "priorities_added(priority)")],
+         modifies=[], raises={"AssertionError": True}, skip_frame=True,
+         bounded="BOUNDED: at most %d shows in the entry; no event kwargs" % NSH)
+    return C
